@@ -263,10 +263,13 @@ class Run:
             self.findings.append(Finding("failing-input", f"{what}: {verdict}", c, got, "", ""))
 
     # -- obligations ------------------------------------------------------------------------------
-    def check_obligations(self, modules, theorems):
+    def check_obligations(self, modules, theorems, generated=None):
         p = self.prep
         assert p is not None
         for name, msg in p.translate_errors.items():
+            if generated is not None and name not in generated:
+                self.notes.append(f"translator could not read {name} (not part of this check's tie): {msg}")
+                continue
             self.findings.append(Finding("broken-translation", f"translator could not read {name}: {msg}"))
         for m in modules:
             if not p.build_ok.get(m, False):
